@@ -349,7 +349,7 @@ def model_task(p, tier, seed):
 
 def programs_for(tier, seed):
     if tier == "quick":
-        return [CP.P7(), CP.P3(), CP.P8(), CP.P15(), CP.P21(), CP.P22(), CP.P23(), CP.P24(), CP.P28()]
+        return [CP.P7(), CP.P3(), CP.P8(), CP.P15(), CP.P17(), CP.P21(), CP.P22(), CP.P23(), CP.P24(), CP.P28()]
     return CP.all_fixed() + [CP.P21(), CP.P22(), CP.P23(), CP.P24(), CP.P28()] + CP.presence_variants(CP.P3())[1:] + [CP.random_program(seed, i) for i in range(10)]
 
 
